@@ -88,7 +88,7 @@ impl<'b, T: ItemX, B: MutRB<Item = T>, const WK: bool> Session<'b, B, WK> {
     fn set_probe(&mut self, f: Box<dyn Fn() -> Vec<u64>>) { PROBE.with(|p| *p.borrow_mut() = Some(f)); }
     fn end_probe(&mut self) { self.final_probe = PROBE.with(|p| p.borrow_mut().take()).map(|f| f()); }
     fn usable(&self, k: St) -> bool {
-        !self.freed && match k { St::P => self.p.here(), St::W => WK && self.w.here(), St::C => self.c.here() }
+        !self.freed && match k { St::P => self.p.here(), St::W => self.w.here(), St::C => self.c.here() }
     }
     fn is_det(&self, k: St) -> bool {
         match k { St::P => matches!(self.p, Slot::Det(_)), St::W => matches!(self.w, Slot::Det(_)), St::C => matches!(self.c, Slot::Det(_)) }
@@ -345,10 +345,10 @@ macro_rules! heap_run {
                 let len = cfg.init.len();
                 if cfg.stages == 3 {
                     let (p, w, c) = buf.split_mut();
-                    run_session::<$T, _, true>(Session { p: Slot::Att(p), w: Slot::Att(w), c: Slot::Att(c), heap: true, freed: false, len, final_probe: None, last_avail: None }, $ls, $out, Some("init ok"));
+                    run_session(Session { p: Slot::Att(p), w: Slot::Att(w), c: Slot::Att(c), heap: true, freed: false, len, final_probe: None, last_avail: None }, $ls, $out, Some("init ok"));
                 } else {
                     let (p, c) = buf.split();
-                    run_session::<$T, _, false>(Session { p: Slot::Att(p), w: Slot::Gone, c: Slot::Att(c), heap: true, freed: false, len, final_probe: None, last_avail: None }, $ls, $out, Some("init ok"));
+                    run_session(Session { p: Slot::Att(p), w: Slot::Gone, c: Slot::Att(c), heap: true, freed: false, len, final_probe: None, last_avail: None }, $ls, $out, Some("init ok"));
                 }
             }
         }
@@ -393,10 +393,10 @@ macro_rules! stack_run_n {
                     if first == Some("unit") { logger().log.lock().unwrap().clear(); log_on(); }
                     let nx = if stages3 {
                         let (p, w, c) = buf.split_mut();
-                        run_session::<$T, _, true>(Session { p: Slot::Att(p), w: Slot::Att(w), c: Slot::Att(c), heap: false, freed: false, len: $N, final_probe: None, last_avail: None }, &mut *lsr, $out, first)
+                        run_session(Session { p: Slot::Att(p), w: Slot::Att(w), c: Slot::Att(c), heap: false, freed: false, len: $N, final_probe: None, last_avail: None }, &mut *lsr, $out, first)
                     } else {
                         let (p, c) = buf.split();
-                        run_session::<$T, _, false>(Session { p: Slot::Att(p), w: Slot::Gone, c: Slot::Att(c), heap: false, freed: false, len: $N, final_probe: None, last_avail: None }, &mut *lsr, $out, first)
+                        run_session(Session { p: Slot::Att(p), w: Slot::Gone, c: Slot::Att(c), heap: false, freed: false, len: $N, final_probe: None, last_avail: None }, &mut *lsr, $out, first)
                     };
                     match nx {
                         Next::End => { drop(buf); break }
